@@ -52,6 +52,8 @@ pub enum TypeErrorEnum {
     UnusedFn(String),
     /// A top-level function calls itself recursively.
     RecursiveFnDef(String),
+    /// A struct or enum contains itself (directly or through other types).
+    RecursiveTypeDef(String),
     /// No struct or enum declaration with the specified name exists.
     UnknownStructOrEnum(String),
     /// No struct declaration with the specified name exists.
@@ -136,6 +138,9 @@ impl std::fmt::Display for TypeErrorEnum {
             TypeErrorEnum::PubFnWithoutParams(fn_name) => f.write_fmt(format_args!("The function '{fn_name}' is declared pub, but has no parameters")),
             TypeErrorEnum::UnusedFn(name) => f.write_fmt(format_args!(
                 "Function '{name}' is declared but never used"
+            )),
+            TypeErrorEnum::RecursiveTypeDef(name) => f.write_fmt(format_args!(
+                "Type '{name}' contains itself, which is not supported"
             )),
             TypeErrorEnum::RecursiveFnDef(name) => f.write_fmt(format_args!(
                 "Function '{name}' is declared recursively, which is not supported"
@@ -508,6 +513,80 @@ impl UntypedProgram {
                 });
             }
             enum_defs.insert(enum_name.clone(), EnumDef { variants, meta });
+        }
+
+        // a struct or enum that contains itself would be of infinite size:
+        fn contains_type_def(
+            ty: &Type,
+            name: &str,
+            struct_defs: &HashMap<String, StructDef>,
+            enum_defs: &HashMap<String, EnumDef>,
+            visited: &mut HashSet<String>,
+        ) -> bool {
+            match ty {
+                Type::Array(elem, _)
+                | Type::ArrayConst(elem, _)
+                | Type::ArrayConstExpr(elem, _) => {
+                    contains_type_def(elem, name, struct_defs, enum_defs, visited)
+                }
+                Type::Tuple(fields) => fields
+                    .iter()
+                    .any(|ty| contains_type_def(ty, name, struct_defs, enum_defs, visited)),
+                Type::Struct(n) | Type::Enum(n) => {
+                    if n == name {
+                        return true;
+                    }
+                    if !visited.insert(n.clone()) {
+                        return false;
+                    }
+                    if let Some(def) = struct_defs.get(n) {
+                        def.fields.iter().any(|(_, ty)| {
+                            contains_type_def(ty, name, struct_defs, enum_defs, visited)
+                        })
+                    } else if let Some(def) = enum_defs.get(n) {
+                        def.variants.iter().any(|variant| {
+                            variant.types().unwrap_or_default().iter().any(|ty| {
+                                contains_type_def(ty, name, struct_defs, enum_defs, visited)
+                            })
+                        })
+                    } else {
+                        false
+                    }
+                }
+                _ => false,
+            }
+        }
+        let mut recursive_type_defs = vec![];
+        for (name, def) in struct_defs.iter() {
+            let mut visited = HashSet::new();
+            if def
+                .fields
+                .iter()
+                .any(|(_, ty)| contains_type_def(ty, name, &struct_defs, &enum_defs, &mut visited))
+            {
+                recursive_type_defs.push((def.meta, name.clone()));
+            }
+        }
+        for (name, def) in enum_defs.iter() {
+            let mut visited = HashSet::new();
+            if def.variants.iter().any(|variant| {
+                variant
+                    .types()
+                    .unwrap_or_default()
+                    .iter()
+                    .any(|ty| contains_type_def(ty, name, &struct_defs, &enum_defs, &mut visited))
+            }) {
+                recursive_type_defs.push((def.meta, name.clone()));
+            }
+        }
+        if !recursive_type_defs.is_empty() {
+            // nothing else can be checked, because the size of these types is not defined
+            recursive_type_defs.sort();
+            for (meta, name) in recursive_type_defs {
+                let e = TypeErrorEnum::RecursiveTypeDef(name);
+                errors.push(Some(TypeError::new(e, meta)));
+            }
+            return Err(errors.into_iter().flatten().collect());
         }
 
         let mut untyped_defs = Defs::new(&const_types, &struct_defs, &enum_defs);
